@@ -189,3 +189,15 @@ Theorem C17_table_code_shape :
   Gen_modes.NEW_ID_SHAPE_OK = true /\ Gen_modes.DEL_ID_SHAPE_OK = true.
 Proof. exact @table_code_shape. Qed.
 Print Assumptions C17_table_code_shape.
+
+(* what the property needs of the allocator (NOT that the slot is the first free one): while the table is not full it hands out an unused id in range and enters the object *)
+Theorem C17_new_id_finds_free_slot :
+  allocator_ok Files.new_id.
+Proof. exact @new_id_finds_free_slot. Qed.
+Print Assumptions C17_new_id_finds_free_slot.
+
+(* the variant that starts the scan at pnc_numfiles fails this: witness = full table, close id 0, allocate -> NC_NOERR with id -1 *)
+Theorem C17_new_id_from_numfiles_refuted :
+  ~ allocator_ok Files.new_id_from_numfiles.
+Proof. exact @new_id_from_numfiles_refuted. Qed.
+Print Assumptions C17_new_id_from_numfiles_refuted.
